@@ -530,12 +530,15 @@ func deref(t types.Type) types.Type {
 func projectField(t *Term, name string) *Term {
 	// field of a struct literal built by stores: look through "anyof"/"partial"
 	if t.Op == "anyof" {
-		var hits []*Term
+		var hits, nested []*Term
 		whole := false
 		for _, a := range t.Args {
 			if a.Op == "partial" {
 				if a.Name == "."+name {
 					hits = append(hits, a.Args[0])
+				} else if strings.HasPrefix(a.Name, "."+name+".") || strings.HasPrefix(a.Name, "."+name+"[") {
+					// a store deeper into the field: keep it as a partial of the projected record
+					nested = append(nested, &Term{Op: "partial", Name: a.Name[len(name)+1:], Args: a.Args, V: a.V})
 				}
 				continue
 			}
@@ -543,6 +546,16 @@ func projectField(t *Term, name string) *Term {
 			hits = append(hits, projectField(a, name))
 		}
 		_ = whole
+		if len(hits) == 0 && len(nested) > 0 {
+			if len(nested) == 1 {
+				return nested[0]
+			}
+			return &Term{Op: "anyof", Args: nested}
+		}
+		if len(hits) == 1 && len(nested) == 0 {
+			return hits[0]
+		}
+		hits = append(hits, nested...)
 		if len(hits) == 1 {
 			return hits[0]
 		}
@@ -553,6 +566,9 @@ func projectField(t *Term, name string) *Term {
 	if t.Op == "partial" {
 		if t.Name == "."+name {
 			return t.Args[0]
+		}
+		if strings.HasPrefix(t.Name, "."+name+".") || strings.HasPrefix(t.Name, "."+name+"[") {
+			return &Term{Op: "partial", Name: t.Name[len(name)+1:], Args: t.Args, V: t.V}
 		}
 		return &Term{Op: "zero", Name: "." + name}
 	}
@@ -1137,7 +1153,7 @@ func pathCond(tb *TermBuilder, head, b *ssa.BasicBlock) *Cond {
 			}
 			e := pc(p)
 			if ifi, ok := p.Instrs[len(p.Instrs)-1].(*ssa.If); ok && len(p.Succs) == 2 && p.Succs[0] != p.Succs[1] {
-				atom := &Cond{Op: "atom", Atom: tb.T(ifi.Cond)}
+				atom := condOfBool(tb, ifi.Cond, 0)
 				if p.Succs[0] == x {
 					e = cAnd(e, atom)
 				} else {
@@ -1151,6 +1167,85 @@ func pathCond(tb *TermBuilder, head, b *ssa.BasicBlock) *Cond {
 		return res
 	}
 	return pc(b)
+}
+
+// condOfBool renders a boolean SSA value as a condition: a non-cyclic bool phi (the value of a
+// short-circuit a||b / a&&b kept in a variable) becomes the disjunction over its edges of "edge taken
+// and edge value"; a same-package predicate helper (deep builders only) is opened the same way with
+// its parameters substituted; !x is negation. Anything else is an atom.
+func condOfBool(tb *TermBuilder, v ssa.Value, depth int) *Cond {
+	atom := func() *Cond { return &Cond{Op: "atom", Atom: tb.T(v)} }
+	if depth > 3 {
+		return atom()
+	}
+	switch x := v.(type) {
+	case *ssa.UnOp:
+		if x.Op == token.NOT {
+			return cNot(condOfBool(tb, x.X, depth+1))
+		}
+	case *ssa.Phi:
+		if x.Parent() != tb.F || isCyclicPhi(x) || tb.Choose != nil {
+			return atom()
+		}
+		dom := x.Block().Idom()
+		if dom == nil {
+			return atom()
+		}
+		res := &Cond{Op: "false"}
+		for k, e := range x.Edges {
+			pred := x.Block().Preds[k]
+			if !dom.Dominates(pred) {
+				return atom()
+			}
+			ec := pathCond(tb, dom, pred)
+			if ifi, ok := pred.Instrs[len(pred.Instrs)-1].(*ssa.If); ok && len(pred.Succs) == 2 && pred.Succs[0] != pred.Succs[1] {
+				a := condOfBool(tb, ifi.Cond, depth+1)
+				if pred.Succs[0] == x.Block() {
+					ec = cAnd(ec, a)
+				} else {
+					ec = cAnd(ec, cNot(a))
+				}
+			}
+			var vc *Cond
+			if c, ok := e.(*ssa.Const); ok && c.Value != nil {
+				vc = &Cond{Op: c.Value.ExactString()}
+				if vc.Op != "true" && vc.Op != "false" {
+					return atom()
+				}
+			} else {
+				vc = condOfBool(tb, e, depth+1)
+			}
+			res = cOr(res, cAnd(ec, vc))
+		}
+		return res
+	case *ssa.Call:
+		g := x.Call.StaticCallee()
+		if g == nil || !tb.Deep || tb.NoInline || tb.Keep[fname(g)] || pkgOf(g) != pkgOf(tb.F) || g.Blocks == nil || tb.inStack(g) || len(g.FreeVars) > 0 {
+			return atom()
+		}
+		if bt, ok := x.Type().Underlying().(*types.Basic); !ok || bt.Kind() != types.Bool || len(g.Blocks) > 12 {
+			return atom()
+		}
+		for _, b := range g.Blocks {
+			if enclosingLoopHeader(b) != nil {
+				return atom() // predicates with loops stay opaque calls
+			}
+		}
+		sub := newDeepTB(g)
+		sub.Keep = tb.Keep
+		sub.stack = append(append([]*ssa.Function{}, tb.stack...), tb.F)
+		var ats []*Term
+		for _, a := range callArgs(x) {
+			ats = append(ats, tb.T(a))
+		}
+		res := &Cond{Op: "false"}
+		for _, r := range returnsOf(g) {
+			rc := cAnd(pathCond(sub, g.Blocks[0], r.Block()), condOfBool(sub, r.Results[0], depth+1))
+			res = cOr(res, substCond(rc, ats))
+		}
+		return res
+	}
+	return atom()
 }
 
 // ---------------------------------------------------------------------------
